@@ -104,6 +104,8 @@ type txCase struct {
 
 	Send         []dest  `json:"send,omitempty"`
 	Batch        []dest  `json:"batch,omitempty"`
+	UnspentCRLF  bool    `json:"unspentcrlf,omitempty"`  // unspent.txt lines end with CR LF
+	UnspentNoNL  bool    `json:"unspentnonl,omitempty"`  // the last line of unspent.txt has no line end
 	BatchCRLF    bool    `json:"batchcrlf,omitempty"`    // batch file lines end with CR LF
 	BatchNoNL    bool    `json:"batchnonl,omitempty"`    // the last line of the batch file has no line end
 	BatchComment int     `json:"batchcomment,omitempty"` // bit i: a comment line "#...=..." stands before line i
@@ -718,7 +720,14 @@ func checkCase(c txCase) (info caseInfo, err error) {
 			}
 		}
 	}
-	unspentBefore := []byte(ul.String())
+	ustr := ul.String()
+	if c.UnspentCRLF {
+		ustr = strings.ReplaceAll(ustr, "\n", "\r\n")
+	}
+	if c.UnspentNoNL {
+		ustr = strings.TrimRight(ustr, "\r\n")
+	}
+	unspentBefore := []byte(ustr)
 	if err = os.WriteFile(filepath.Join(dir, "balance", "unspent.txt"), unspentBefore, 0o600); err != nil {
 		return info, err
 	}
@@ -1331,6 +1340,8 @@ func genCase(t *rapid.T) txCase {
 	}
 
 	c.TxFn = rapid.Bool().Draw(t, "txfn")
+	c.UnspentCRLF = rapid.IntRange(0, 3).Draw(t, "unspent_crlf") == 0
+	c.UnspentNoNL = rapid.IntRange(0, 2).Draw(t, "unspent_nonl") == 0
 	c.RFC6979 = rapid.IntRange(0, 2).Draw(t, "rfc6979") == 0
 	if !c.RFC6979 {
 		c.MinSig = rapid.IntRange(0, 3).Draw(t, "minsig") == 0
@@ -1594,6 +1605,12 @@ func TestWalletTx(t *testing.T) {
 			default:
 				r.Class("msg_above_77_bytes")
 			}
+		}
+		if c.UnspentNoNL {
+			r.Class("unspent_last_line_without_newline")
+		}
+		if c.UnspentCRLF {
+			r.Class("unspent_crlf")
 		}
 		if info.second {
 			r.Class("second_payment_from_updated_balance")
